@@ -124,6 +124,14 @@ def build_goto(ob, work, record=False):
     p = subprocess.run(["goto-cc"] + objs + ["-o", gb], capture_output=True, text=True)
     if p.returncode != 0:
         raise BuildError("link failed: " + p.stderr[-4000:])
+    # CBMC resolves a call through a function pointer to every function of a compatible type; restricting the
+    # candidate set (goto-instrument inserts an assertion that the pointer is one of the targets) keeps symex small
+    for i, spec in enumerate(ob.get("fp_restrict", [])):
+        out = os.path.join(work, "obl_fp%d.gb" % i)
+        p = subprocess.run(["goto-instrument", "--restrict-function-pointer", spec, gb, out], capture_output=True, text=True)
+        if p.returncode != 0:
+            raise BuildError("goto-instrument --restrict-function-pointer %s failed: %s" % (spec, (p.stdout + p.stderr)[-2000:]))
+        gb = out
     return gb
 
 
